@@ -172,7 +172,7 @@ pub fn run(ctx: &mut Ctx) {
     crate::spec::assert_spec_matches::<V>(&rs);
     let n = ctx.tier.pick(6, 7);
     let doc_nodes = ctx.tier.pick(4, 5);
-    ctx.meta("rule", "cases: byte streams parsed by the strict iterator from a slice; streams = every string over Σ up to length n, every document of T∘E (all known/unknown-size mixes, deep spines) and every single mutation (byte replaced by each Σ byte, byte deleted, truncation, every mid-document suffix at an element boundary). Oracle: NestingChecker replays the Ok items: End matches innermost open Start or the next implied ancestor; ids known; ref_path_match(path, open chain) once the first non-global element fixed the position; element extents (header decoded by RefCodec at the reported offset) inside every enclosing known-size master; known-size End neither late nor early (early only at end of input); all masters closed at a clean end. Non-trivial: >= 2 levels open at some point.");
+    ctx.meta("rule", "cases: byte streams parsed by the strict iterator from a slice; streams = every string over Σ up to length n, every document of T∘E (all known/unknown-size mixes, deep spines) and every single mutation (byte replaced by each Σ byte, byte deleted, truncation, every mid-document suffix at an element boundary), and documents longer than the 64 KiB buffer with long headers around the buffer boundary, whole and cut near the boundary. Oracle: NestingChecker replays the Ok items: End matches innermost open Start or the next implied ancestor; ids known; ref_path_match(path, open chain) once the first non-global element fixed the position; element extents (header decoded by RefCodec at the reported offset) inside every enclosing known-size master; known-size End neither late nor early (early only at end of input); all masters closed at a clean end. Non-trivial: >= 2 levels open at some point.");
     ctx.meta("bounds", &format!("Σ* length <= {}; documents <= {} elements (+ spines), all single mutations", n, doc_nodes));
     ctx.meta("assumptions", "64 KiB tag-size limit on the mutation corpus (mutated size fields otherwise allocate gigabytes legitimately)");
     ctx.expect_nonzero("mid_document_starts");
